@@ -8,7 +8,22 @@
 -/
 import YataModel
 import YataDriver
-open Yata Yata.Drv
+open Yata Yata.Drv Yata.Ind
+
+/-- running indicator case -/
+structure IndCase where
+  name : String
+  kinds : List String
+  srcs : List Source
+  st : Option IState            -- `none`: no model for this indicator
+  ctx : Ctx
+  first : Candle Rat
+  flat : Bool := true           -- every candle so far equals the first
+  zeroVol : Bool := false       -- a zero-volume candle has been seen
+  cmpVals : Bool := true
+  cmpSigs : Bool := true
+  cmpRange : Bool := true
+  sigHold : Nat := 0            -- steps during which the detector states resynchronise after a non-finite value
 
 inductive CaseState where
   | idle
@@ -22,6 +37,8 @@ inductive CaseState where
   | methodNew (name : String) (params : List String) (t0 : Nat) (m0 : Rat)
   | method (name : String) (params : List String) (st : MState) (ctx : Ctx) (prevLeaves : List String)
       (lstepOnly : Bool) (spec : SpecSt)
+  | indNew (name : String) (cfg : List String)
+  | ind (i : IndCase)
 
 structure Drv where
   P : Nat := 255
@@ -157,6 +174,13 @@ def stepMethod (d : Drv) (line : String) : Drv × Option String :=
         let (_, spec') := specStep name params spec (inp.map (·.q))
         ({ d with cs := .method name params st' ctx leaves false spec' }, none)
       | .ok (outs, st'), _ =>
+        -- C12: dispersion measures are never negative (strict, on the implementation's own output)
+        if ["stdev", "mad", "medad", "linvol", "tr"].contains name &&
+            (match parseRat (res.headD "") with
+             | some y => y < -(ctx.allow (ctx.M * ((ctx.n + 1 : Nat) : Rat)))   -- "up to the rounding allowance" (sum scale n·M)
+             | none => false) then
+          mismatch d s!"range: dispersion output {res.headD ""} is negative" line "range"
+        else
         let (sv, spec') := specStep name params spec (inp.map (·.q))
         let mv := outExact (outs.headD .exempt)
         if !specAgrees mv sv then
@@ -186,6 +210,152 @@ def stepMethod (d : Drv) (line : String) : Drv × Option String :=
         | none, some m, _ => mismatch d m line "semantic"
   | _, _ => (d, none)
 
+def imismatch (d : Drv) (cls sub what line : String) (next : CaseState) : Drv × Option String :=
+  let d := { d with mism := d.mism + 1, badCases := if d.caseBad then d.badCases else d.badCases + 1,
+                    caseBad := true, cs := next }
+  (d, some s!"MISMATCH case={d.caseId} comp={d.comp} sub={sub} class={cls} line={d.lineNo} op=\"{line.take 160}\" what=\"{what}\"")
+
+/-- split `v<k> … s<m> …` -/
+def splitRes (res : List String) : Option (List String × List String) :=
+  match res with
+  | h :: r =>
+    if h.startsWith "v" then
+      match (h.drop 1).toString.toNat? with
+      | some k =>
+        let vals := r.take k
+        match r.drop k with
+        | sh :: sr => if sh.startsWith "s" then some (vals, sr) else none
+        | [] => none
+      | none => none
+    else none
+  | [] => none
+
+def kindTag (i : IndCase) : String :=
+  if i.kinds.isEmpty then i.name else i.name ++ "/" ++ "+".intercalate i.kinds
+
+def stepIndicator (d : Drv) (line : String) : Drv × Option String :=
+  let (op, res, _) := split3 line
+  match d.cs, op with
+  | .indNew name cfg, "N" :: inToks =>
+    match candleOfToks inToks with
+    | none => ({ d with cs := .skip }, some s!"NOTE case={d.caseId} non-finite first candle skipped")
+    | some k =>
+      let rust := res.headD "?"
+      let kinds := maKinds cfg
+      let srcs := cfgSources cfg
+      let ctx0 : Ctx := { P := d.P }
+      match iNew d.P name cfg k with
+      | none =>
+        let d := { d with ops := d.ops + 1 }
+        if rust == "ok" then
+          ({ d with cs := .ind { name := name, kinds := kinds, srcs := srcs, st := none, ctx := bumpCandle ctx0 srcs k, first := k } }, none)
+        else ({ d with cs := .skip }, none)
+      | some r =>
+        let ms := match r with | .ok _ => "ok" | .err e => s!"err:{e}" | .panic _ => "P"
+        let d := { d with ops := d.ops + 1 }
+        if ms != rust then imismatch d "ind-init" name s!"init: rust={rust} model={ms}" line .skip
+        else match r with
+          | .ok st =>
+            ({ d with cs := .ind { name := name, kinds := kinds, srcs := srcs, st := some st,
+                                   ctx := bumpCandle { ctx0 with n := st.winLen } srcs k, first := k } }, none)
+          | _ => ({ d with cs := .skip }, none)
+  | .ind i, "X" :: inToks =>
+    match candleOfToks inToks with
+    | none => ({ d with cs := .skip }, some s!"NOTE case={d.caseId} non-finite candle skipped")
+    | some k =>
+      let d := { d with ops := d.ops + 1 }
+      if res == ["P"] then imismatch d "ind-panic" (kindTag i) "next panicked on a valid candle" line .skip
+      else
+      match splitRes res with
+      | none => imismatch d "ind-shape" (kindTag i) "unparsable result" line .skip
+      | some (vt, st) =>
+        let ctx := bumpCandle { i.ctx with t := i.ctx.t + 1 } i.srcs k
+        let flat := i.flat && k == i.first
+        let zeroVol := i.zeroVol || k.volume == 0
+        let i := { i with ctx := ctx, flat := flat, zeroVol := zeroVol }
+        let rvo := vt.map parseRat
+        let finite := rvo.all Option.isSome
+        let rv := rvo.map (·.getD 0)
+        -- C12: ranges and orderings, on the implementation's own values, no exemption
+        let rbad : Option String :=
+          if !i.cmpRange then none
+          else if finite then rangeCheck ctx i.name i.kinds k rv
+          else
+            -- a non-finite value in a slot with a documented interval is outside that interval
+            (rangeSpec i.name i.kinds).intervals.findSome? fun (j, lo, hi) =>
+              match rvo[j]? with
+              | some none => some s!"v{j}:range value {vt.getD j "?"} (non-finite) outside [{ratStr lo}, {ratStr hi}]"
+              | _ => none
+        match i.st with
+        | none =>
+          -- unmodelled indicator: finiteness only (where no zero volume can make a quotient undefined)
+          -- unmodelled indicator: only the (empty) range table applies; where its formula is defined is not known here
+          let i := { i with cmpRange := i.cmpRange && rbad.isNone }
+          match rbad with
+            | some m => imismatch d "ind-range" (kindTag i ++ ":" ++ (m.splitOn " ").headD "") m line (.ind i)
+            | none => ({ d with cs := .ind i }, none)
+        | some ist =>
+          match iStep d.P ctx.eps ist k rv with
+          | .error e => imismatch d "ind-panic" (kindTag i) s!"model panics ({e}), rust returned values" line .skip
+          | .ok so =>
+            let i := { i with st := some so.st }
+            -- C05
+            let (vbad, vex) : Option String × Nat :=
+              if !i.cmpVals then (none, 0)
+              else if so.vals.length ≠ vt.length then (some s!"v:shape model has {so.vals.length} values, rust {vt.length}", 0)
+              else
+                ((so.vals.zip vt).zipIdx).foldl (fun (acc : Option String × Nat) (p : (VExp × String) × Nat) =>
+                  match acc.1 with
+                  | some _ => acc
+                  | none => match cmpV ctx flat p.1.1 p.1.2 rv with
+                    | .ok => acc
+                    | .exempt => (none, acc.2 + 1)
+                    | .bad m => (some s!"v{p.2}:value {m}", acc.2)) (none, 0)
+            -- C06
+            let (sbad, sex) : Option String × Nat :=
+              if !i.cmpSigs || !finite || i.sigHold > 0 then (none, if finite && i.sigHold > 0 then 1 else 0)
+              else if so.sigs.length ≠ st.length then (some s!"s:shape model has {so.sigs.length} signals, rust {st.length}", 0)
+              else
+                ((so.sigs.zip st).zipIdx).foldl (fun (acc : Option String × Nat) (p : (SigExp × String) × Nat) =>
+                  match acc.1 with
+                  | some _ => acc
+                  | none => match cmpS p.1.1 p.1.2 with
+                    | .ok => acc
+                    | .exempt => (none, acc.2 + 1)
+                    | .bad m => (some s!"s{p.2}:signal {m}", acc.2)) (none, 0)
+            let d := { d with exempt := d.exempt + vex + sex, specs := d.specs + (if i.cmpVals then so.vals.length else 0),
+                              lsteps := d.lsteps + (if i.cmpSigs && finite then so.sigs.length else 0) }
+            -- a borderline model decision (SAR flip within rounding) ends the value/signal comparison of the case
+            let i := { i with sigHold := if !finite then 1 else i.sigHold - 1 }
+            let i := if so.borderline then { i with cmpVals := false, cmpSigs := false } else i
+            let tag (m : String) := kindTag i ++ ":" ++ (m.splitOn " ").headD ""
+            if so.borderline then ({ d with cs := .ind i, exempt := d.exempt + 1 }, none)
+            else match rbad, vbad, sbad with
+            | some m, _, _ =>
+              -- a range violation at a slot whose exact denominator (or guard) is zero up to the allowance is the
+              -- rounding-residue quotient; anything else is a different violation
+              let slot := ((m.drop 1).toString.takeWhile Char.isDigit).toString.toNat?.getD 0
+              let (residue, undefined) := match so.vals[slot]? with
+                | some (.quot _ den _ κd sc guards alt) =>
+                  let aD := ctx.allow (κd * scaleOf ctx sc)
+                  let r := ratAbs den ≤ aD || guards.any (fun g => ratAbs g ≤ aD)
+                  (r, r && alt.isNone)
+                | _ => (false, false)
+              -- no guard in the code and a zero exact denominator: the formula is not defined there (zero total volume)
+              if undefined then ({ d with cs := .ind i, exempt := d.exempt + 1 }, none)
+              else if residue then
+                imismatch d "ind-range" (i.name ++ ":" ++ (m.splitOn " ").headD "" ++ "-residue") m line (.ind { i with cmpRange := false })
+              else imismatch d "ind-range" (tag m) m line (.ind { i with cmpRange := false })
+            | none, some m, _ =>
+              let cls := if (m.splitOn "non-finite").length > 1 then "ind-finite" else "ind-value"
+              -- Vidya's running sums amplify rounding residue (known finding of C03/C15): cases configured with it are
+              -- reported under their own signature
+              let sub := if i.kinds.contains "vidya" then "vidya:" ++ i.name else tag m
+              imismatch d cls sub m line (.ind { i with cmpVals := false })
+            | none, none, some m => imismatch d "ind-signal" (tag m) m line (.ind { i with cmpSigs := false })
+            | none, none, none => ({ d with cs := .ind i }, none)
+  | _, _ => (d, none)
+
 def step (d : Drv) (line : String) : Drv × Option String :=
   let d := { d with lineNo := d.lineNo + 1 }
   let (op, res) := splitLine line
@@ -204,9 +374,10 @@ def step (d : Drv) (line : String) : Drv × Option String :=
         let t0 := ((ps.find? (·.startsWith "t0=")).map fun t => (t.drop 3).toString.toNat!).getD 0
         let m0 := ((ps.find? (·.startsWith "M=")).bind fun t => parseRat (t.drop 2).toString).getD 0
         CaseState.methodNew name (ps.filter fun t => !(t.startsWith "t0=") && !(t.startsWith "M=")) t0 m0
+      | "indicator", name :: cfg => CaseState.indNew name cfg
       | _, _ => CaseState.idle
     ({ d with cs := cs, caseId := id, comp := comp, sub := _params.headD "", cases := d.cases + 1, caseBad := false },
-      if comp == "window" || comp == "method" || comp == "action" || comp == "candle" || comp == "renko" || comp == "flags" then none else some s!"UNKNOWN-COMPONENT case={id} comp={comp}")
+      if comp == "window" || comp == "method" || comp == "action" || comp == "candle" || comp == "renko" || comp == "flags" || comp == "indicator" then none else some s!"UNKNOWN-COMPONENT case={id} comp={comp}")
   | ["E"] => ({ d with cs := .idle }, none)
   | _ =>
     match d.cs with
@@ -214,6 +385,8 @@ def step (d : Drv) (line : String) : Drv × Option String :=
     | .skip => (d, none)
     | .methodNew _ _ _ _ => stepMethod d line
     | .method _ _ _ _ _ _ _ => stepMethod d line
+    | .indNew _ _ => stepIndicator d line
+    | .ind _ => stepIndicator d line
     | .renkoNew brick src =>
       let parts := (line.splitOn ";").map words
       let rust := unwords (parts.getD 1 [])
